@@ -30,7 +30,8 @@ RULE = ("part A: all changepoint subsets for n<=7 x data x stat x bounds through
         "distinct = (detector, changepoints or data id, n, data, stat, bounds, representation)")
 
 MARGIN = 1e-9
-STATS = ("mean", "median", "max", "range")
+STATS = ("mean", "median", "max", "range", "std", "var")      # std / var: NumPy callables with ddof=0 (the user's statistic, not pandas' ddof=1)
+INEXACT_STATS = ("std", "var")
 BOUNDS = ((-1.0, 1.0), (0.0, 0.0), (-2.5, 0.5), (0.5, 3.0))
 REPRS = ("df", "df:x", "df:labels", "series", "series:labels", "ndarray1d", "ndarray2d", "df:int64", "df:datetime", "df:range5")
 
@@ -40,7 +41,7 @@ def _user_range(v):
 
 
 def stat_fn(name):
-    return {"mean": np.mean, "median": np.median, "max": np.max, "range": _user_range}[name]
+    return {"mean": np.mean, "median": np.median, "max": np.max, "range": _user_range, "std": np.std, "var": np.var}[name]
 
 
 def stub_class():
@@ -120,12 +121,12 @@ def represent(x, kind):
 
 
 # ----------------------------------------------------------------------------------------------- oracle
-def expected_anomalies(x, cps, stat, lo, hi):
+def expected_anomalies(x, cps, stat, lo, hi, exact_stat=True):
     """Statement of C17.  Returns (intervals, tie) - tie when some statistic is within MARGIN of a bound."""
     b = [0] + [int(c) for c in cps] + [len(x)]
     out, tie = [], False
     xa = np.asarray(x, dtype=float)
-    exact = bool(np.all(xa * 2 == np.round(xa * 2)) and np.all(np.abs(xa) < 1e6))   # half-integers: every statistic used is exact
+    exact = exact_stat and bool(np.all(xa * 2 == np.round(xa * 2)) and np.all(np.abs(xa) < 1e6))   # half-integers: mean/median/max/range are exact
     for a, c in zip(b, b[1:]):
         if c <= a:
             continue
@@ -222,7 +223,7 @@ def check_case(rec, name, make_inner, x, cps, stat_name, lo, hi, rep, inp, prefi
     independent fitted clone for real detectors).  Returns (compared, nontrivial)."""
     from skchange.anomaly_detectors import StatThresholdAnomaliser
     stat = stat_fn(stat_name)
-    want, tie = expected_anomalies(x, cps, stat, lo, hi)
+    want, tie = expected_anomalies(x, cps, stat, lo, hi, exact_stat=stat_name not in INEXACT_STATS)
     if tie:
         return False, False
     inner = make_inner()
